@@ -15,6 +15,7 @@
    Python oracle only.  Statements only; each closed by a lemma of P_Discovery. *)
 From PyDcop Require Import Base Net M_Discovery P_Discovery.
 From PyDcop Require Import P_Discovery2 P_Discovery2A P_Discovery2R P_Discovery2C P_Discovery2T.
+From PyDcop Require Import P_Discovery3C.
 
 (* In-flight invariant (DESIGN: disc_inv), computations: in every configuration reached, for
    subscriber a and every computation c the directory lists on g: either the last notification
@@ -268,3 +269,57 @@ Example c20_comp2_nonvacuous :
   zlookup 0 (g_comps (n_dir (w_st (nodes cf 0)))) = Some 2 /\
   zlookup 0 (d_comps (n_disc (w_st (nodes cf 1)))) = Some 2.
 Proof. vm_compute. repeat split; auto. Qed.
+
+(* ====================================================================== Deepening 2 (P_Discovery3*.v)
+   Computations for EVERY history: unregister_agent is no longer excluded.  unpublish_agent(y) makes
+   the subscriber drop the non-technical computations it lists on y, so the replay of the pending
+   notifications applies *filters* as well as values ([replay3], [dropc]); the directory node carries
+   two more invariants ([Dinv]: Directory._computations_data is contained in the orchestrator's
+   Discovery table -- hence a directory that carries out unregister_agent(y) lists no non-technical
+   computation on y -- and sorted keys of the computation-subscription map).  Same guard as before. *)
+Theorem disc_comp3_inv : forall (h : hist_t) (a : Z) (ns : list node) (sched : list (@action)),
+  0 < a -> In 0 ns -> In a ns ->
+  let P := disc_proto h in
+  let cf0 := fst (exec P (init P) (map (@Start) ns)) in
+  guard_along h cf0 sched ->
+  Base a (fst (exec P cf0 sched)) /\ IC3 a (fst (exec P cf0 sched)).
+Proof. exact disc_comp3_inv_l. Qed.
+
+(* full strength for the positive form: any history, subscriber, start order, schedule under the guard *)
+Theorem disc_comp3_converges : forall (h : hist_t) (a : Z) (ns : list node) (sched : list (@action)),
+  0 < a -> In 0 ns -> In a ns ->
+  let P := disc_proto h in
+  let cf0 := fst (exec P (init P) (map (@Start) ns)) in
+  guard_along h cf0 sched ->
+  let cf := fst (exec P cf0 sched) in
+  forall c g,
+    In a (sm_get c (g_sub_comps (n_dir (w_st (nodes cf 0))))) ->
+    zlookup c (g_comps (n_dir (w_st (nodes cf 0)))) = Some g ->
+    chan cf 0 a = [] -> chan cf a 0 = [] ->
+    zlookup c (d_comps (n_disc (w_st (nodes cf a)))) = Some g.
+Proof. exact disc_comp3_converges_l. Qed.
+
+(* by-product: under the guard, every computation the Directory lists is listed (on the same agent) by
+   the Discovery object of the orchestrator, in every reachable configuration *)
+Theorem dir_tables_agree : forall (h : hist_t) (a : Z) (ns : list node) (sched : list (@action)),
+  0 < a -> In 0 ns -> In a ns ->
+  let P := disc_proto h in
+  let cf0 := fst (exec P (init P) (map (@Start) ns)) in
+  guard_along h cf0 sched ->
+  let cf := fst (exec P cf0 sched) in
+  forall c g, zlookup c (g_comps (n_dir (w_st (nodes cf 0)))) = Some g ->
+              zlookup c (d_comps (n_disc (w_st (nodes cf 0)))) = Some g.
+Proof. exact dir_tables_agree_l. Qed.
+
+(* non-vacuity: a history with unregister_agent (outside frag2) that the directory carries out --
+   subscriber 2 sees agent_removed for agent 1 -- every hypothesis and the conclusion *)
+Example c20_comp3_nonvacuous :
+  frag2b okc3_h = false /\
+  guard_alongb okc3_h (run_from okc3_h w1_ns []) okc3_sched = true /\
+  let cf := run_from okc3_h w1_ns okc3_sched in
+  quietb cf w1_ns = true /\
+  In 2 (sm_get 0 (g_sub_comps (n_dir (w_st (nodes cf 0))))) /\
+  zlookup 0 (g_comps (n_dir (w_st (nodes cf 0)))) = Some 1 /\
+  zlookup 0 (d_comps (n_disc (w_st (nodes cf 2)))) = Some 1 /\
+  In (EvCb 2 8 2 1 None) (snd (exec (disc_proto okc3_h) (run_from okc3_h w1_ns []) okc3_sched)).
+Proof. vm_compute. repeat split; auto 10. Qed.
